@@ -140,6 +140,8 @@ class FakeConn:
 def classify(exc):
     from aioesphomeapi import core
     if isinstance(exc, core.BadNameAPIError):
+        if "\ufffd" in exc.received_name:
+            return "bad_name:<fffd>"       # undecodable name presented with U+FFFD (one marker element in the model)
         return "bad_name:" + (exc.received_name.encode().hex() or "-")
     if isinstance(exc, core.InvalidEncryptionKeyAPIError):
         return "invalid_key"
@@ -154,7 +156,10 @@ def classify(exc):
         if "Handshake frame is empty" in s:
             return "empty_handshake"
         if "Handshake failure: " in s:
-            return "handshake_fail:" + (s.split("Handshake failure: ", 1)[1].encode().hex() or "-")
+            txt = s.split("Handshake failure: ", 1)[1]
+            if "\ufffd" in txt:
+                return "handshake_fail:<fffd>"
+            return "handshake_fail:" + (txt.encode().hex() or "-")
         if "dropped immediately after encrypted hello" in s:
             return "dropped_after_hello"
         return "handshake_other"
